@@ -26,6 +26,26 @@ theorem header_arith (o : WOpts) (s : Store) (h64 : 51 + o.dataPad + o.indexPad 
   rw [finalHeader_arith o s h64]
   cases h : o.storeIdentity <;> simp [finalHeader, V2Header.fullyIndexed, fullyIndexedBit]
 
+/-- The same arithmetic on the **source itself**: `NewHeader`, `WithDataPadding`, `WithIndexPadding`,
+    `WithDataSize` and `HasIndex` as translated statement by statement from `/repo`'s `v2/car.go` on this run
+    (`Facts.Tr`, uint64 wrap-around explicit), composed the way the writers compose them, give the numbers
+    of the specification — and they are the functions the model's `finalHeader` is made of. -/
+theorem header_arith_of_the_source (o : WOpts) (s : Store) (h64 : 51 + o.dataPad + o.indexPad + s.pos < 2 ^ 64) :
+    let h := Facts.Tr.withDataSize (Facts.Tr.withIndexPadding (Facts.Tr.withDataPadding (Facts.Tr.newHeader 0) o.dataPad) o.indexPad) s.pos
+    h.dataOffset = 51 + o.dataPad ∧ h.dataSize = s.pos ∧ h.indexOffset = 51 + o.dataPad + s.pos + o.indexPad ∧
+    Facts.Tr.hasIndex h = true ∧ h = (s.finalHeader o).toTr := by
+  intro h
+  have hfin : h = (s.finalHeader o).toTr := by
+    simp only [h, Store.finalHeader, tr_newHeader, tr_withDataPadding, tr_withIndexPadding, tr_withDataSize]
+    unfold V2Header.setFullyIndexed V2Header.toTr
+    split <;> split <;> rfl
+  have ha := header_arith o s h64
+  refine ⟨?_, ?_, ?_, ?_, hfin⟩
+  · rw [hfin]; exact ha.1
+  · rw [hfin]; exact ha.2.1
+  · rw [hfin]; exact ha.2.2.1
+  · rw [hfin, tr_hasIndex]; simp only [V2Header.hasIndex, ha.2.2.1]; simp
+
 /-- The header bytes start at offset 11 = |pragma| and the first byte after the pragma carries the flag. -/
 theorem pragma_and_flag_position : pragma.length = 11 ∧ pragma = [0x0a, 0xa1, 0x67, 0x76, 0x65, 0x72, 0x73, 0x69, 0x6f, 0x6e, 0x02] ∧
     ∀ (h : V2Header), h.charHi < 256 → (h.bytes.take 1) = [UInt8.ofNat h.charHi] := by
